@@ -145,6 +145,17 @@ CHECKS.update({
         design_ref="DESIGN.md section 5 C18"),
 })
 
+CHECKS.update({
+    "C19": dict(
+        category="model_checking",
+        technique=CORE + "; drivers as instances of one session (spec/ISDrivers.tla), compared on the same projects",
+        text="TLC checks DriversAgree on the session model; emitted programs x approved sets and hand-written projects "
+             "(HasRepr values, several files, failing / raising tests, [tool.black] options) are run through "
+             "Example.run_inline, Example.run_pytest, a real pytest session and the harness' own in-process driver, and "
+             "the changed files and pending categories are compared with the real session",
+        design_ref="DESIGN.md section 5 C19"),
+})
+
 NOT_YET = {
 }
 
